@@ -268,6 +268,34 @@ def refill_histories(ctx):
                                      rtol=1e-12, atol=1e-13)
 
 
+def dtype_forms(ctx):
+    """Whole-number function values and centres handed over in integer dtypes give the answer of their float copies."""
+    for gname in ("3d", "atom", "2d", "1d"):
+        g = make_grid(gname, ctx.seed)
+        n, dim = g.size, np.asarray(g.points).shape[1]
+        fi = (np.arange(n) % 5 - 2).astype(np.int64)
+        ci = np.array([[0, 0, 0], [1, -1, 0], [2, 1, -1], [-1, 0, 2]])[:, :dim]
+        for kind in ("cartesian", "radial", "pure", "pure-radial"):
+            if kind in ("pure", "pure-radial") and dim != 3:
+                continue
+            ctx.count(section="dtypes")
+            case = {"route": "dtypes", "grid": gname, "type": kind}
+            try:
+                with warnings.catch_warnings():
+                    warnings.simplefilter("ignore")
+                    a = np.asarray(g.moments(2, ci, fi, type_mom=kind), dtype=float)
+                    b = np.asarray(g.moments(2, ci.astype(float), fi.astype(float), type_mom=kind), dtype=float)
+            except Exception as exc:
+                ctx.violation(f"dtypes:{kind}:raised:{type(exc).__name__}", f"{gname}: moments with integer-dtype values / centres raised "
+                              f"{type(exc).__name__}: {exc}", case)
+                continue
+            ref, _, sc = ref_moments(np.array(g.points, dtype=float), np.array(g.weights, dtype=float), fi.astype(float), ci.astype(float), 2, kind)
+            ctx.nontrivial(("dtypes", gname, kind), section="dtypes")
+            if a.shape != ref.shape or np.any(_gt(np.abs(a - ref), 1e-11 * (sc + 1e-3 * np.max(sc)))) or np.any(_gt(np.abs(a - b), 1e-12 * (sc + 1e-3 * np.max(sc)))):
+                ctx.violation(f"dtypes:{kind}:integer-inputs-differ", f"{gname}: moments with integer-dtype function values and four integer "
+                              f"centres differ from the direct quadrature / from the float call", case)
+
+
 def reassign_histories(ctx):
     """moments, reassign the grid's points (or weights) through the setter, moments again with the SAME centres and
     order: the second answer is that of a fresh grid holding the new arrays (added after seeded change C14-E: a
@@ -338,11 +366,14 @@ def run(ctx):
     ctx.guarded("dipole", dipole, ctx)
     ctx.guarded("refill", refill_histories, ctx)
     ctx.guarded("reassign", reassign_histories, ctx)
+    ctx.guarded("dtypes", dtype_forms, ctx)
     ctx.cov["configurations"] = len(jobs)
     ctx.exhaustive = True
 
 
 def replay(ctx, case):
+    if case.get("route") == "dtypes":
+        return dtype_forms(ctx)
     if case.get("route") == "reassign":
         return reassign_histories(ctx)
     if case.get("route") == "refill":
